@@ -10,7 +10,7 @@ from proj import Project
 
 ASSUMPTIONS = [
     "timestamps are opaque canonical tokens digits.dddd (floats are never compared); pids are canonical decimal tokens",
-    "replay model covers flat directories (mydir = \"\"), --details, no --debug-locks; the --follow loop is exercised on the implementation only (live monitor)",
+    "replay model covers two directories (record texts are spellings relative to the directory of the log's target, roots are spellings relative to the project directory; names stay inside the project, no absolute record texts, no symlinks), --details, no --debug-locks; the --follow loop is exercised on the implementation only (live monitor)",
     "lines are compared modulo trailing whitespace (clean_line strips it by design)",
     "a stderr line that parses as a record is consumed as a record (known finding inbandRecordsInStderr); generated script output avoids the @@REDO: prefix except in the dedicated scenario",
 ]
@@ -103,17 +103,51 @@ def parse_out(text):
     return out
 
 
+NAMES = ["t0", "t1", "t2", "sub/t3", "sub/t4", "sub/t5"]
+
+
+def spell(rng, target, frm):
+    """A spelling of the project-relative cleaned name `target`, relative to the directory `frm` ("" or "sub").
+    Returns (text, trivial): trivial = the text is the cleaned project-relative name itself."""
+    tdir, _, tbase = target.rpartition("/")
+    if tdir == frm:
+        plain = tbase
+    elif frm == "":
+        plain = target
+    else:
+        plain = "../" + target
+    r = rng.random()
+    if r < 0.45:
+        s = plain
+    elif r < 0.6:
+        s = "./" + plain
+    elif r < 0.72:
+        # through the other directory and back
+        s = ("sub/../" + plain) if frm == "" else ("../sub/" + plain)
+    elif r < 0.8:
+        s = plain.replace("/", "//", 1) if "/" in plain else "./" + plain
+    elif r < 0.88:
+        s = plain.replace("/", "/./", 1) if "/" in plain else "././" + plain
+    else:
+        s = ("./sub/.././" + plain) if frm == "" else ("./../sub/" + plain)
+    return s, (s == target)
+
+
 def gen_forest(rng, k):
-    names = ["t%d" % i for i in range(k)]
+    names = NAMES[:k]
     F = {}
+    nspell = [0, 0]
     for n in names:
         if rng.random() < 0.12:
             F[n] = None
             continue
+        frm = n.rpartition("/")[0]
         ls = []
         for _ in range(rng.randint(0, 7)):
             r = rng.random()
-            c = rng.choice(names)
+            c, triv = spell(rng, rng.choice(names), frm)
+            if r >= 0.3 and not (0.85 <= r < 0.92):
+                nspell[0 if triv else 1] += 1
             if r < 0.3:
                 ls.append(rng.choice(["%s out %d" % (n, len(ls)), "trailing ws \t ", "  leading", "é日本", "x" * 300, ""]))
             elif r < 0.5:
@@ -129,18 +163,19 @@ def gen_forest(rng, k):
             else:
                 ls.append(rng.choice(["@@REDO:do:5@@ %s" % c, "@@REDO:do:x:1.0000@@ %s" % c, " @@REDO:do:5:1.0000@@ %s" % c, "@@REDO:done:5:1.0000@@ 0"]))
         F[n] = ls
-    return names, F
+    return names, F, nspell
 
 
 def replay_level(ctx, rng, viol):
     thorough = ctx["tier"] == "thorough"
     nf = 150 if thorough else 25
-    stats = dict(forests=0, replays=0, outputs=0, errors=0)
+    stats = dict(forests=0, replays=0, outputs=0, errors=0, record_spellings_trivial=0, record_spellings_nontrivial=0,
+                 root_spellings_nontrivial=0, replays_with_nontrivial_spelling=0, replays_entering_sub_from_top_or_back=0)
     samples = []
     pr = Project()
     try:
         k = 6
-        names = ["t%d" % i for i in range(k)]
+        names = NAMES[:k]
         for n in names:
             pr.write(n + ".do", "echo hi\n")
         rc, out, err = pr.run(["redo"] + names)
@@ -149,7 +184,9 @@ def replay_level(ctx, rng, viol):
         fids = dict((n, i) for i, n in db.execute("select rowid,name from Files"))
         db.close()
         for fi in range(nf):
-            _, F = gen_forest(rng, k)
+            _, F, nsp = gen_forest(rng, k)
+            stats["record_spellings_trivial"] += nsp[0]
+            stats["record_spellings_nontrivial"] += nsp[1]
             for n in names:
                 lp = pr.path(".redo/log.%d" % fids[n])
                 if F[n] is None:
@@ -160,7 +197,9 @@ def replay_level(ctx, rng, viol):
                         f.write("".join(l + "\n" for l in F[n]))
             stats["forests"] += 1
             for optu in (0, 1):
-                roots = rng.sample(names, rng.randint(1, 2))
+                rootsp = [spell(rng, r, "") for r in rng.sample(names, rng.randint(1, 2))]
+                roots = [r[0] for r in rootsp]
+                stats["root_spellings_nontrivial"] += sum(1 for r in rootsp if not r[1])
                 fenc = ";".join("%s:%s" % (hx(n), "!" if F[n] is None else ",".join(hx(l) for l in F[n])) for n in names)
                 req = "catlog %d 1 %s %s" % (optu, ",".join(hx(r) for r in roots), fenc)
                 mres = run_lines(MODEL, [req])[0]
@@ -182,6 +221,14 @@ def replay_level(ctx, rng, viol):
                             want += parse_out(unhx(f[1]).decode() + "\n") or [("r", "")]
                     got = parse_out(out)
                     stats["outputs"] += len(got)
+                    shown = [x[2] for x in got if x[0] == "m" and x[1] == "do"]
+                    entered = set(os.path.normpath(r) for r in roots) | set(shown)
+                    texts = [mm.group(1) for e in entered for l in (F.get(e) or [])
+                             for mm in [re.match(r"^@@REDO:(?:do|unchanged|waiting|locked|unlocked):\d+:[0-9.]+@@ (.*)$", l)] if mm]
+                    if any(not r[1] for r in rootsp) or any(x not in F for x in texts):
+                        stats["replays_with_nontrivial_spelling"] += 1
+                    if any(x.startswith("sub/") for x in shown) and any(not x.startswith("sub/") for x in shown):
+                        stats["replays_entering_sub_from_top_or_back"] += 1
                     agree = rc == 0 and got == want
                 if not agree:
                     p = write_replay("C18", "corr-replay", dict(kind="model-vs-impl", layer="LogRec.catlog", forest=F, roots=roots, unchanged=optu, model=mres if mres.startswith("err:") else want, impl=got, rc=rc, stderr=err[-600:]))
@@ -198,7 +245,8 @@ def replay_level(ctx, rng, viol):
 
 def impl_replay_violation(F, roots, got):
     """Independent monitor: every non-record line of a log whose target was entered appears exactly once."""
-    entered = set(roots) | set(x[2] for x in got if x[0] == "m" and x[1] == "do")
+    # printed names are cleaned project-relative names, i.e. keys of F; command-line roots may be any spelling
+    entered = set(os.path.normpath(r) for r in roots) | set(x[2] for x in got if x[0] == "m" and x[1] == "do")
     for t in entered:
         for l in F.get(t) or []:
             if l.startswith("@@REDO:"):
@@ -403,7 +451,7 @@ def run(ctx):
         two_spellings_scenario(ctx, viol)
     return dict(evaluations=s1["requests"] + s2.get("replays", 0) + s3.get("builds", 0),
                 distinct_nontrivial=s1["parse_accepted"] + s2.get("replays", 0) - s2.get("errors", 0) + s3.get("builds", 0),
-                rule="record-shaped and malformed lines from a seeded grammar (non-trivial = accepted by the parser); synthetic 6-target log forests (records do/unchanged/waiting/done/other, look-alikes, missing files, cycles) replayed by the real redo-log -r with and without -u (non-trivial = replay without error); live builds of random graphs at several -j with numbered/partial/70 kB/trailing-whitespace lines",
+                rule="record-shaped and malformed lines from a seeded grammar (non-trivial = accepted by the parser); synthetic 6-target log forests in two directories (t0 t1 t2 sub/t3 sub/t4 sub/t5; records do/unchanged/waiting/done/other whose names are random spellings relative to the log's own directory — t1, ./t1, sub/../t1, ../sub/t4, sub//t3, sub/./t3 …; look-alikes, missing files, cycles; roots through random spellings too) replayed by the real redo-log -r with and without -u (non-trivial = replay without error); live builds of random graphs at several -j with numbered/partial/70 kB/trailing-whitespace lines",
                 samples=smp1 + smp2 + smp3, disagreements_checked=s1["requests"] + s2.get("replays", 0),
                 traces_validated_against_impl=s2.get("replays", 0), known_hit=known_hit,
                 distribution=dict(record=s1, replay=s2, live=s3))
